@@ -36,7 +36,7 @@ def concerns(ev, verdict):
             s.add("C20")
         if p in ("input-modified", "binds-modified"):
             s.add("C07")
-        elif p in ("ast-modified", "string-changed", "not-repeatable", "history-dependent"):
+        elif p in ("ast-modified", "string-changed", "not-repeatable", "history-dependent", "order-dependent"):
             s.add("C05")
         elif p in ("not-json", "evalbytes-differs", "undefined-mismatch"):
             s.add("C10")
@@ -109,6 +109,8 @@ def run_pipeline(prop, fam, tier, seed, work, jh, specdir, stats):
     t0 = time.time()
     replay(jh, cases, trace, timeout_s=fam.get("case_timeout", 5))
     stats["replay_s"] = round(time.time() - t0, 1)
+    if fam.get("order_check") and not fam.get("_replaying"):
+        order_check(jh, cases, trace, work, fam, tier, stats)
     t0 = time.time()
     verdicts, gen, dist = validate(specdir, trace, timeout=fam.get("tlc_timeout", 3000), module=fam.get("trace_module", "TraceEval"), by_ev=fam.get("trace_by_ev"))
     stats["validate_s"] = round(time.time() - t0, 1)
@@ -190,6 +192,57 @@ def corrupt(ev, module="TraceEval"):
             return None
         return e
     return None
+
+def order_check(jh, cases, trace, work, fam, tier, stats):
+    """History independence across evaluations (C05): a sample of the cases is evaluated twice more, by ONE process each
+    time, once in the order of the file and once in the reverse order - so every case runs once after all the cases before
+    it and once after all the cases behind it.  A case whose outcome differs between the two orders, in two independent
+    repetitions, is marked in the trace; the trace specification decides whether the program may vary (TraceEval)."""
+    from concurrent.futures import ThreadPoolExecutor
+    with open(cases) as f:
+        lines = [l for l in f if l.strip()]
+    cap = fam["order_check"][tier]
+    nfixed = stats.get("fixed_cases", 0)
+    head, tail = (lines[:-nfixed], lines[-nfixed:]) if nfixed else (lines, [])
+    if len(head) > cap:
+        step = len(head) / float(cap)
+        head = [head[int(k * step)] for k in range(cap)]
+    sel = head + tail
+    odir = os.path.join(work, "order")
+    os.makedirs(odir, exist_ok=True)
+    def run(tag, seq):
+        cp = os.path.join(odir, tag + ".cases.ndjson")
+        tp = os.path.join(odir, tag + ".trace.ndjson")
+        with open(cp, "w") as f:
+            f.writelines(seq)
+        replay(jh, cp, tp, timeout_s=fam.get("case_timeout", 5) * 3, jobs=1)
+        return dict((i, e.get("out")) for i, e in load_trace(tp).items())
+    def differing(rnd):
+        with ThreadPoolExecutor(2) as ex:
+            ff = ex.submit(run, "fwd%d" % rnd, sel)
+            fr = ex.submit(run, "rev%d" % rnd, sel[::-1])
+            of, orv = ff.result(), fr.result()
+        d = {}
+        for i, o in of.items():
+            o2 = orv.get(i)
+            if o is None or o2 is None or o.get("o") in ("timeout", "crash") or o2.get("o") in ("timeout", "crash"):
+                continue
+            if json.dumps(o, sort_keys=True) != json.dumps(o2, sort_keys=True):
+                d[i] = (o, o2)
+        return d
+    d1 = differing(1)
+    d2 = differing(2) if d1 else {}
+    marked = dict((i, v) for i, v in d1.items() if i in d2 and json.dumps(d2[i], sort_keys=True) == json.dumps(v, sort_keys=True))
+    stats["order_check"] = {"cases_evaluated_in_both_orders": len(sel), "outcome_differs_between_orders": len(marked), "differs_once_only": len(d1) - len(marked)}
+    log("[%s] order check: %d cases evaluated by one process in file order and in reverse order, %d outcomes differ (both repetitions)" % (fam.get("famtag", "?"), len(sel), len(marked)))
+    if marked:
+        evs = load_trace(trace)
+        with open(trace, "w") as f:
+            for i in sorted(evs):
+                e = evs[i]
+                if i in marked:
+                    e["rev_same"], e["ord_fwd"], e["ord_rev"] = False, marked[i][0], marked[i][1]
+                f.write(json.dumps(e) + "\n")
 
 def binding_selftest(fam, work, specdir, evs, verdicts, stats, rnd):
     """Corrupts one recorded field in a sample of lines the specification accepted and requires the
@@ -495,7 +548,7 @@ def main(argv):
         if a.replay:
             with open(a.replay) as f:
                 rp = json.load(f)
-            fam = dict(fam, g=[], v=[], files=[])
+            fam = dict(fam, g=[], v=[], files=[], _replaying=True)
             os.makedirs(os.path.join(work, "rp"), exist_ok=True)
             rel = os.path.join(".work", os.path.basename(work), "rp", "case.ndjson")
             with open(os.path.join(VERIF, rel), "w") as f:
@@ -559,7 +612,8 @@ def main(argv):
                     # second evaluation of the same case in a fresh process disagrees with the first:
                     # for histories-sensitive properties (C05) the first observation stands only if
                     # the check says so
-                    if fam.get("order_sensitive"):
+                    if fam.get("order_sensitive") or "order-dependent" in mine[i]:
+                        # (an outcome that depends on the order of evaluations was already observed twice, by order_check)
                         v2 = mine[i]
                         ce = evs[i]
                     else:
